@@ -166,15 +166,12 @@ Definition respond_observable (methods : list Z) (mode : obs_mode) (r : request)
   match mode with
   | ORaise e => [RRaise e]                                 (* await self.add_observation(...) is outside the try *)
   | _ =>
-    let accepted := match mode with ODecline => false | _ => true end in
+    (* the finally block runs the cancellation callback only for accepted observations (195eca8): it never raises *)
     match render methods r with
     | Responded m =>
         if establishes methods mode r then [RAdd (VMsg (set_obs m (Some 0))) false]
-        else if accepted then [RAdd (VMsg m) true; RReturn]
-        else [RAdd (VMsg m) true; RRaise EOther]           (* finally: servobs._cancellation_callback() -> AttributeError, after the final response *)
-    | Raised e =>
-        if accepted then [RRaise e]
-        else [RRaise EOther]                               (* FINDING: the AttributeError of the finally block replaces e *)
+        else [RAdd (VMsg m) true; RReturn]
+    | Raised e => [RRaise e]
     end
   end.
 
@@ -206,17 +203,6 @@ Definition reaches_handler (srv : option site) (r : request) : bool :=
                   (match mode with ORaise _ => negb (observing r) | _ => true end)
                   && is_request (r_code r) && existsb (Z.eqb (r_code r)) methods
               end
-  end.
-
-(* a rendering cancelled while its handler is still awaited (stop() from a same-key request): for a declined observation the
-   finally block's AttributeError replaces the CancelledError, reaches wrapped()'s except and is logged as discarded *)
-Definition cancel_raises (srv : option site) (r : request) : bool :=
-  match srv with
-  | Some s => match find_resource s (r_path r) with
-              | Some (Observable _ ODecline) => observing r
-              | _ => false
-              end
-  | None => false
   end.
 
 (* error_to_message.on_event, exception branch (pipe.py:250-280): what is put on the requester's pipe *)
